@@ -46,7 +46,18 @@ class C20(common.Spec):
     def run_impl(self, cases):
         out = []
         for k in range(0, len(cases), 40):
-            out.extend(self._run_batch(cases[k:k + 40]))
+            part = cases[k:k + 40]
+            try:
+                out.extend(self._run_batch(part))
+            except Exception:       # noqa
+                # some block of the batch made the start-up fail: run the cases one by one; the case
+                # that cannot even be started is reported as such (created, but not usable)
+                for c in part:
+                    try:
+                        out.extend(self._run_batch([c]))
+                    except Exception as err:       # noqa
+                        out.append(dict(created=True, start=fr(424242), steps=[],
+                                        startup_error=type(err).__name__))
         return out
 
     def _run_batch(self, cases):
